@@ -134,6 +134,49 @@ fn object_counts(m: &AnyManifest) -> (u32, u32, u32, u32, u32) {
     (nb, np, nr, na, children)
 }
 
+
+/// Path (field indexes) of the first difference between two instructions, seen as manifest SBOR value trees.
+fn first_difference_path(a: &InstructionV2, b: &InstructionV2) -> String {
+    fn as_value(i: &InstructionV2) -> Option<MV> {
+        manifest_decode::<MV>(&manifest_encode(i).ok()?).ok()
+    }
+    fn walk(a: &MV, b: &MV, path: &mut Vec<String>) -> bool {
+        match (a, b) {
+            (MV::Tuple { fields: x }, MV::Tuple { fields: y }) | (MV::Enum { fields: x, .. }, MV::Enum { fields: y, .. }) | (MV::Array { elements: x, .. }, MV::Array { elements: y, .. }) => {
+                if let (MV::Enum { discriminator: d1, .. }, MV::Enum { discriminator: d2, .. }) = (a, b) {
+                    if d1 != d2 {
+                        path.push("discriminator".into());
+                        return true;
+                    }
+                }
+                if x.len() != y.len() {
+                    path.push("len".into());
+                    return true;
+                }
+                for i in 0..x.len() {
+                    path.push(i.to_string());
+                    if walk(&x[i], &y[i], path) {
+                        return true;
+                    }
+                    path.pop();
+                }
+                a != b
+            }
+            _ => a != b,
+        }
+    }
+    match (as_value(a), as_value(b)) {
+        (Some(x), Some(y)) => {
+            let mut p = vec![];
+            walk(&x, &y, &mut p);
+            // the generic-argument payload position is an instance detail: keep only the first two levels
+            p.truncate(2);
+            p.join(".")
+        }
+        _ => "?".into(),
+    }
+}
+
 #[derive(PartialEq, Eq, Debug, Clone, Copy)]
 enum Outcome {
     Excluded,
@@ -221,7 +264,7 @@ fn check_manifest(any: &AnyManifest, label: &str, key_suffix: &str, l: &mut Loca
             if a.len() != b.len() {
                 "instruction-count".to_string()
             } else if let Some(i) = (0..a.len()).find(|i| a[*i] != b[*i]) {
-                format!("instruction:{}", idents[i])
+                format!("instruction:{}:field-path={}", idents[i], first_difference_path(&a[i], &b[i]))
             } else {
                 "blobs-children-or-preallocation".to_string()
             }
